@@ -245,3 +245,63 @@ def c15_same_document(compact_text, pretty_text):
     cls = "text" if ": text " in (d or "") else ("attrs" if "attributes" in (d or "") else "structure")
     m = re.search(r"/(\w+): ", d or "")
     return [(f"pretty-differs:{cls}:{m.group(1) if m else '?'}", d)]
+
+
+# ----------------------------------------------------------------------------- form-independent clauses of C03 / C09 / C10 (W-suite)
+def c03_tokens(p: X.Parsed):
+    """No ${...} token survives; whatever reads instance('__last-saved') has that instance declared exactly once."""
+    v = []
+    uses = False
+    for el in p.root.iter():
+        if not isinstance(el.tag, str):
+            continue
+        for k, val in el.attrib.items():
+            if "${" in val:
+                v.append(("token-survives:attribute", f"'${{' survives in @{X.local(k)}={val[:80]!r} on <{X.local(el.tag)}>"))
+            if "instance('__last-saved')" in val:
+                uses = True
+        if (el.text and "${" in el.text) or (el.tail and "${" in el.tail):
+            v.append(("token-survives:text", f"'${{' survives in text of/after <{X.local(el.tag)}>"))
+    if uses:
+        decl = [i for i in p.secondary if i.get("id") == "__last-saved"]
+        if len(decl) != 1 or decl[0].get("src") != "jr://instance/last-saved":
+            v.append(("last-saved:instance-not-declared", f"paths into instance('__last-saved') are emitted but the instance is declared {len(decl)} times"))
+    return v[:6]
+
+
+def c09_instances(p: X.Parsed):
+    """Secondary instance ids are unique; every itemset that reads instance('x') finds a declared instance x."""
+    import re as _re
+    v = []
+    ids = [i.get("id") for i in p.secondary]
+    for d in sorted({x for x in ids if ids.count(x) > 1}, key=str):
+        v.append(("instance-id:duplicate", f"instance id {d!r} is declared {ids.count(d)} times"))
+    for el in p.body.iter():
+        if isinstance(el.tag, str) and X.local(el.tag) == "itemset":
+            for m in _re.finditer(r"instance\('([^']+)'\)", el.get("nodeset") or ""):
+                if m.group(1) not in ids:
+                    v.append(("itemset:reads-undeclared-instance", f"itemset nodeset {el.get('nodeset')!r} reads instance {m.group(1)!r}, which is not declared"))
+    return v[:6]
+
+
+def c10_actions(p: X.Parsed):
+    """Per target node: at most one first-load setvalue; a node that has one carries no literal content."""
+    v = []
+    first = {}
+    for el in list(p.model.iter()) + list(p.body.iter()):
+        if isinstance(el.tag, str) and X.local(el.tag) == "setvalue" and (el.get("event") or "").startswith("odk-instance-first-load"):
+            first.setdefault(el.get("ref"), []).append(el)
+    for ref, els in first.items():
+        if len(els) > 1:
+            v.append(("default:setvalue-duplicated", f"{ref}: {len(els)} first-load setvalue actions"))
+        try:
+            nodes = p.resolve(ref)
+        except Exception:  # noqa: BLE001
+            nodes = []
+        def content(n):
+            if isinstance(n, tuple):  # an attribute target: (element, attribute name)
+                return (n[0].get(n[1]) or "") if len(n) == 2 and hasattr(n[0], "get") else ""
+            return n.text or ""
+        if any(content(n).strip() for n in nodes):
+            v.append(("default:literal-and-setvalue", f"{ref}: literal content in the instance and a first-load setvalue as well"))
+    return v[:6]
